@@ -201,7 +201,7 @@ func c04EvalConn(c c04Case, frames [][]byte, stream []byte) (sig, diag string, r
 func init() {
 	vc.Register(&vc.Check{
 		ID: "C04", Level: "model_checking",
-		Rule: "streams = ALL sequences of 1..2 (thorough 3) frames from a 14-frame menu (both versions, bodies 0..1023 bytes, escape-dense, an escaped frame of 2077 bytes, identical neighbours); partitions: unsegmented, frame by frame, byte by byte, EVERY 1-cut, and EVERY 2-cut for streams <= 250 bytes (thorough <= 400; longer streams: 2-cuts among positions within 1 byte of a delimiter, escape pair, header/body boundary or multiple of 1023), 3-cuts <= 80 bytes in thorough; reads longer than 1023 bytes are split like the reader's buffer. " +
+		Rule: "streams = ALL sequences of 1..2 (thorough 3) frames from a 14-frame menu (both versions, bodies 0..1023 bytes, escape-dense, an escaped frame of 2077 bytes, identical neighbours); partitions: unsegmented, frame by frame, byte by byte, EVERY 1-cut, and EVERY 2-cut for streams <= 250 bytes (thorough <= 400; longer streams: 2-cuts among positions within 1 byte of a delimiter, escape pair, header/body boundary or multiple of 1023), 3-cuts <= 80 bytes in thorough; quick additionally: all 3- and 4-frame streams over the frames of <= 24 bytes with every 2-cut (and every 3-cut when <= 64 bytes); reads longer than 1023 bytes are split like the reader's buffer. " +
 			"Each partition is played against the real frame extractor from one re-used 1023-byte buffer; every 1-cut of every 1..2-frame stream (streams over 200 bytes: the cuts near structural positions) also through the real connection.reader on a virtual socket. states = distinct (buffered byte count, delivered count, head of the last read) extractor states per worker, transitions = reads. Non-trivial = partition with >=1 cut inside a frame",
 		Assumptions: []string{"reference deframer harness/ref/frame.go", "the extractor is reached through the VerifParser accessor (build tag verif, added by overlay); the connection-level runs use no accessor"},
 		Run:         c04Run,
@@ -343,6 +343,47 @@ func c04Run(ctx *vc.Ctx, rep *vc.Report) {
 		}
 	}
 	rec(nil)
+	// three- and four-frame streams over the short frames: every 2-cut, and every 3-cut of streams <= 64 bytes
+	// (a stale scan/offset state needs: a split frame, then a fast-path read, then a coalesced read)
+	if !ctx.Thorough() {
+		var short []int
+		for i, f := range menu {
+			if len(f) <= 24 {
+				short = append(short, i)
+			}
+		}
+		var rec3 func(seq []int, n int)
+		rec3 = func(seq []int, n int) {
+			if len(seq) == n {
+				var frames [][]byte
+				L := 0
+				for _, i := range seq {
+					frames = append(frames, menu[i])
+					L += len(menu[i])
+				}
+				for a := 1; a < L; a++ {
+					for b := a + 1; b < L; b++ {
+						try(frames, []int{a, b}, false, true)
+						if L <= 64 {
+							for c := b + 1; c < L; c++ {
+								try(frames, []int{a, b, c}, false, true)
+							}
+						}
+					}
+				}
+				return
+			}
+			for _, i := range short {
+				if ctx.Expired() {
+					rep.Truncated = true
+					return
+				}
+				rec3(append(append([]int(nil), seq...), i), n)
+			}
+		}
+		rec3(nil, 3)
+		rec3(nil, 4)
+	}
 	_ = states
 	rep.States += int64(len(c04States))
 	if rep.States == 0 {
